@@ -57,13 +57,15 @@ static void build_particle_space(const std::string& tier, const std::string& fam
     bool T = tier == "thorough";
 
     // P1: group{o1}( leaf{o2} ), all 8x8 occurrence pairs, element a and all nine wildcards        (counter path: o1=(1,1) or o2=(1,1))
-    if (fam("p1")) for (Kind c : COMP) for (Occ o1 : FULL) for (TermT t : allTerms) for (Occ o2 : FULL)
+    // (quick: element a and one wildcard per namespace constraint / per processContents value: ##any/strict, ##other/lax, ##targetNamespace/skip)
+    std::vector<TermT> p1Terms = allTerms;
+    if (!T) p1Terms = {{ELEM, 0}, {WILD, W_ANY * 3 + PC_STRICT}, {WILD, W_OTHER * 3 + PC_LAX}, {WILD, W_TNS * 3 + PC_SKIP}};
+    if (fam("p1")) for (Kind c : COMP) for (Occ o1 : FULL) for (TermT t : p1Terms) for (Occ o2 : FULL)
         PSPACE.push_back(Particle::group(c, o1, {leafp(t, o2)}));
     // P1n: group{o1}( group{o2}( leaf{o3} ) ): nested repetition of a single leaf
     if (fam("p1n")) {
         const std::vector<Occ>& O = T ? FULL : CORE;
         std::vector<TermT> ts = {{ELEM, 0}};
-        if (T) ts.push_back({WILD, W_OTHER * 3 + PC_LAX});
         for (Kind c : COMP) for (Kind c2 : COMP) for (Occ o1 : O) for (Occ o2 : O) for (TermT t : ts) for (Occ o3 : O)
             PSPACE.push_back(Particle::group(c, o1, {Particle::group(c2, o2, {leafp(t, o3)})}));
     }
@@ -89,7 +91,6 @@ static void build_particle_space(const std::string& tier, const std::string& fam
     // P2n: nested two-leaf shapes: g{o1}( g'{o2}(l1 l2) ), g{o1}( g'{o2}(l1) l2 ), g{o1}( l1 g'{o2}(l2) )
     if (fam("p2n")) {
         std::vector<std::pair<TermT, TermT>> pairs = {{{ELEM, 0}, {ELEM, 1}}, {{ELEM, 0}, {WILD, W_OTHER * 3 + PC_LAX}}};
-        if (T) pairs.push_back({{ELEM, 0}, {ELEM, 0}});
         const std::vector<Occ>& OG = T ? FULL : REP3;
         const std::vector<Occ>& OL = T ? LEAF3 : MINI;
         for (Kind c : COMP) for (Kind c2 : COMP) for (Occ o1 : OG) for (Occ o2 : OG) for (auto& pr : pairs) for (Occ o3 : OL) for (Occ o4 : OL) {
@@ -326,6 +327,7 @@ static bool d1_predicate(const Particle& top, bool fullChecking) {
 struct Cfg8 { int scanner, api; bool full; bool deep; };
 static std::vector<Cfg8> g_cfgs;
 static unsigned g_cfgmask = 0xff;
+static int g_ncfg = 8;
 
 static const char* upa_name(Upa u) { return u == UPA_OK ? "ok" : u == UPA_SAME_PARTICLE ? "same-particle" : "violation"; }
 
@@ -356,15 +358,23 @@ static void run_particle(uint64_t idx, Ctx& c) {
     std::string docDeep = make_doc(ex.words, ex.words.size());
     std::string docShallow = allDeep ? std::string() : make_doc(ex.words, ex.shallow);
     std::string desc = "\"particle\":" + jstr(show(top)) + ",\"upa\":" + jstr(upa_name(ex.upa));
+    int selPos = -1;
     for (size_t ci = 0; ci < g_cfgs.size(); ci++) {
         if (!(g_cfgmask & (1u << ci))) continue;
         const Cfg8& k = g_cfgs[ci];
+        if (g_ncfg == 4) {
+            // quick tier: four of the eight configurations per schema - the odd-parity set {IG/SAX2/full, IG/DOM/nofull, SG/SAX2/nofull, SG/DOM/full}
+            // for even case indexes, the complementary set for odd ones; each set contains every scanner, API and full-checking value twice
+            int parity = ((k.scanner == IG) ? 1 : 0) ^ ((k.api == SAX2) ? 1 : 0) ^ (k.full ? 1 : 0);
+            if (parity != (int)((idx + 1) % 2)) continue;
+        }
+        selPos++;
         Config cfg; cfg.api = k.api; cfg.scanner = k.scanner; cfg.ns = true; cfg.schema = true; cfg.val = 1; cfg.fullcheck = k.full;
         g_vfs->clear();
         g_vfs->put("/v/s.xsd", xsd);
         // big schemas: two of the eight configurations see every word; the pair rotates with the case index and always contains both
         // scanners, both APIs and both full-checking values (pairs: {0,7} {1,6} {2,5} {3,4} in the order of g_cfgs)
-        bool deep = allDeep || ci == (idx % 4) || ci == 7 - (idx % 4);
+        bool deep = allDeep || (g_ncfg == 4 ? (((idx / 2) % 2 == 0) ? (selPos == 0 || selPos == 3) : (selPos == 1 || selPos == 2)) : (ci == (idx % 4) || ci == 7 - (idx % 4)));
         const std::string& doc = deep ? docDeep : docShallow;
         size_t nwords = deep ? ex.words.size() : ex.shallow;
         Parsed P = parse8(cfg, doc, false, false);
@@ -443,6 +453,7 @@ int main(int argc, char** argv) {
         g_alldeep_max = (size_t)a.num("alldeepmax", 800);
         g_cfgmask = (unsigned)a.num("cfgs", 0xff);
         g_skip_known = a.str("known", "report") == "skip";
+        g_ncfg = (int)a.num("ncfg", tier == "thorough" ? 8 : 4);
         build_particle_space(tier, a.str("family", "all"));
         // schemas with many words: all words on IG/SAX2/full and SG/DOM/nofull, the other six configurations on the words of length <= shallow
         for (int sc : {IG, SG}) for (int api : {SAX2, DOM}) for (int full = 1; full >= 0; full--)
